@@ -518,6 +518,17 @@ fn main() {
                     let dneg = rng.next_u64() as u32 & !dpos & if rng.bool() { u32::MAX } else { rng.next_u64() as u32 };
                     let d = CubeM::new(dpos, dneg);
                     exec(ctx, &ev_cubes("single", 32, &[d]), &mut rng);
+                    // cubes over all 32 variables (32 literals), and with one or two variables missing
+                    {
+                        let x = rng.next_u64() as u32;
+                        let full = CubeM::new(x, !x);
+                        let v1 = 1u32 << rng.below(32);
+                        let v2 = 1u32 << rng.below(32);
+                        for cb in [full, CubeM::new(x & !v1, !x & !v1), CubeM::new(x & !v1 & !v2, !x & !v1 & !v2), CubeM::new(u32::MAX & !v1, 0), CubeM::new(0, u32::MAX)] {
+                            exec(ctx, &ev_cubes("single", 32, &[cb]), &mut rng);
+                            exec(ctx, &ev_cubes("pair", 32, &[cb, full]), &mut rng);
+                        }
+                    }
                     let v = 1u32 << rng.below(32);
                     let partners = [
                         d,
